@@ -11,6 +11,7 @@ package interp
 // block when full / empty.
 
 import (
+	"fmt"
 	"go/types"
 )
 
@@ -90,8 +91,49 @@ func tryCase(c *chanCase) (done bool, val value, ok bool) {
 	return false, nil, false
 }
 
+// caseReady reports (without side effects) whether case c could complete right now.
+func caseReady(c *chanCase) bool {
+	ch := c.ch
+	if ch == nil {
+		return false
+	}
+	live := func(q []*chanCase) bool {
+		for _, e := range q {
+			if !e.w.fired {
+				return true
+			}
+		}
+		return false
+	}
+	if c.send {
+		return ch.closed || live(ch.recvq) || len(ch.buf) < ch.capacity
+	}
+	return len(ch.buf) > 0 || live(ch.sendq) || ch.closed
+}
+
 // selectCases performs one selection.  blocking=false: returns chosen=-1 when no case is ready.
+// Go picks at random among several ready cases; here the first ready case in
+// source order is taken, except that within the session's budget of scheduling
+// choices the pick is a SYMBOLIC choice (one explored path per ready case).
 func (i *interpreter) selectCases(what string, cases []*chanCase, blocking bool) (chosen int, val value, ok bool) {
+	if len(cases) > 1 && i.ex != nil && i.ex.S.SchedChoices > 0 {
+		var ready []*chanCase
+		for _, c := range cases {
+			if caseReady(c) {
+				ready = append(ready, c)
+			}
+		}
+		sc := i.scheduler()
+		if len(ready) > 1 && sc.selChoices < i.ex.S.SchedChoices {
+			sc.selChoices++
+			v := i.ex.declare(fmt.Sprintf("select_choice_%d", sc.selChoices), symv{k: kInt, bk: types.Int})
+			i.ex.assertTerm(fmt.Sprintf("(and (>= %s 0) (< %s %d))", v.e, v.e, len(ready)))
+			c := ready[i.ex.concretize(v).(int)]
+			if done, v, k := tryCase(c); done {
+				return c.idx, v, k
+			}
+		}
+	}
 	for _, c := range cases {
 		if done, v, k := tryCase(c); done {
 			return c.idx, v, k
